@@ -10,7 +10,9 @@ RULE = ("rejection kind (13: unsupported dtype, non-text column name, duplicate 
         "scheme / partitioning, unknown column in columns= and in filters=, unknown codec, bad times, bad "
         "object_encoding) x position of the offending column {first, middle, last} x position of the offending row "
         "{first row group, later row group} x existing dataset {simple 1 row group, simple 3 row groups, hive, "
-        "hive partitioned} x mode {append, replace-by-write}; oracle: the call raises and a fresh ParquetFile of "
+        "hive partitioned} x mode {append, replace-by-write} x offending frame size {6 rows, 600 rows for the "
+        "rejections that surface while columns are written, so that the failed write has gone past the length of "
+        "the old footer}; oracle: the call raises and a fresh ParquetFile of "
         "the pre-existing dataset reads exactly the previous content; non-trivial = the operation was attempted on "
         "an existing dataset and raised")
 ASSUMPTIONS = ["orphan files left by a rejected call are allowed here (C09 forbids them)",
@@ -20,6 +22,9 @@ DATASETS = ["simple1", "simple3", "hive", "hive_part"]
 WRITE_REJECTIONS = ["complex_dtype", "int_colname", "dup_names", "none_required", "mixed_object", "int_as_utf8",
                     "diff_columns", "diff_scheme", "diff_partition", "bad_codec", "bad_times", "bad_object_encoding"]
 READ_REJECTIONS = ["unknown_column", "unknown_filter_column"]
+# rejections that can surface while columns are being written (after bytes have gone to the file)
+LATE = ("complex_dtype", "none_required", "mixed_object", "int_as_utf8", "bad_codec")
+BIG = 600
 
 
 def points(tier):
@@ -37,6 +42,10 @@ def points(tier):
                         if rej not in ("none_required", "mixed_object", "int_as_utf8") and rowpos == "later":
                             continue
                         pts.append({"ds": ds, "rej": rej, "mode": mode, "colpos": colpos, "rowpos": rowpos})
+                        if rej in LATE:
+                            # a frame large enough for the failed write to have gone past the old footer's length
+                            pts.append({"ds": ds, "rej": rej, "mode": mode, "colpos": colpos, "rowpos": rowpos,
+                                        "size": BIG})
         for rej in READ_REJECTIONS:
             pts.append({"ds": ds, "rej": rej, "mode": "read", "colpos": "first", "rowpos": "rg0"})
     return pts
@@ -88,32 +97,32 @@ def content(path):
     return rows
 
 
-def offending(rej, colpos, rowpos):
+def offending(rej, colpos, rowpos, n=6):
     """-> (frame, extra write kwargs)"""
     import pandas as pd
     import numpy as np
-    df = base_frame(6, 100)
-    kw = {"row_group_offsets": [0, 3]}
+    df = base_frame(n, 100)
+    kw = {"row_group_offsets": [0, n // 2]}
     target = {"first": "a", "middle": "b", "last": "c"}[colpos]
-    row = 0 if rowpos == "rg0" else 4
+    row = 0 if rowpos == "rg0" else n // 2 + 1
     if rej == "complex_dtype":
-        df[target] = pd.Series([complex(i, 1) for i in range(6)])
+        df[target] = pd.Series([complex(i, 1) for i in range(n)])
     elif rej == "int_colname":
         df = df.rename(columns={"a": 7})
     elif rej == "dup_names":
         df = pd.concat([df, df[["a"]]], axis=1)
     elif rej == "none_required":
-        col = pd.Series(["v%d" % i for i in range(6)], dtype=object)
+        col = pd.Series(["v%d" % i for i in range(n)], dtype=object)
         col[row] = None
         df[target] = col
         kw["has_nulls"] = False
     elif rej == "mixed_object":
-        col = pd.Series(["v%d" % i for i in range(6)], dtype=object)
+        col = pd.Series(["v%d" % i for i in range(n)], dtype=object)
         col[row] = 12345
         df[target] = col
         kw["object_encoding"] = "utf8"
     elif rej == "int_as_utf8":
-        col = pd.Series(["v%d" % i for i in range(6)], dtype=object)
+        col = pd.Series(["v%d" % i for i in range(n)], dtype=object)
         col[row] = b"\xff\xfe raw bytes"
         df[target] = col
         kw["object_encoding"] = "utf8"
@@ -122,7 +131,7 @@ def offending(rej, colpos, rowpos):
     elif rej == "bad_codec":
         kw["compression"] = {target: "NOSUCHCODEC"} if colpos != "first" else "NOSUCHCODEC"
     elif rej == "bad_times":
-        df["a"] = pd.Series(pd.to_datetime(range(6)))
+        df["a"] = pd.Series(pd.to_datetime(range(n)))
         kw["times"] = "int128"
     elif rej == "bad_object_encoding":
         kw["object_encoding"] = "nonsense"
@@ -140,6 +149,8 @@ def run(p):
     path, okw = create(ds, d)
     before = content(path)
     sig = {"ds": ds, "rej": rej, "mode": mode, "colpos": colpos, "rowpos": rowpos}
+    if p.get("size"):
+        sig["size"] = p["size"]
 
     def bad(symptom, detail, **extra):
         s = dict(sig)
@@ -164,7 +175,7 @@ def run(p):
         except Exception as e:
             return bad("handle_damaged", "after the rejected read the handle raises %s: %s" % (type(e).__name__, e))
         return {"ok": True, "outcome": "rejected_intact", "nontrivial": True}
-    df, kw = offending(rej, colpos, rowpos)
+    df, kw = offending(rej, colpos, rowpos, p.get("size", 6))
     wkw = dict(okw)
     if rej == "diff_scheme":
         wkw["file_scheme"] = "hive" if okw["file_scheme"] == "simple" else "simple"
@@ -215,5 +226,5 @@ def run(p):
 LEVEL_TEXT = ("Complete product of rejection kind x position of the offending column x position of the offending row "
               "(i.e. how far the write gets before failing) x existing dataset layout x append / replace; after every "
               "rejected call the pre-existing dataset is re-opened from disk and compared with its previous content.")
-LEVEL_NOTE = "Trusted: pandas frames as inputs. Six rows; three data columns; two row groups per offending frame."
+LEVEL_NOTE = "Trusted: pandas frames as inputs. Six or 600 rows; three data columns; two row groups per offending frame."
 TECHNIQUE = "exhaustive enumeration of rejection kinds x failure positions x dataset states, re-read after the exception"
